@@ -51,7 +51,7 @@ CLAIMS = {
         'text': 'C08_compose (coq/Prop_C08.v): on the specification, for a well-formed prefix P and a continuation Q without `$` and '
                 'without aggregates, values(P++Q) = concatenation over values v of P of values($Q on v); C08_compose_same_root for any '
                 'Q; with C01_refines_spec this transports to the implementation model and gives "fails iff the concatenation is '
-                'empty". Direct oracle needing no model: every split of generated paths, three kinds of retrievals on the real library.',
+                'empty". Direct oracle needing no model: every split of generated paths, three kinds of retrievals on the real library. From the path TEXT: C08_concatenation_from_text (C08Text.v) — for paths of steps and existence/comparison filters written as Coq fchain_path, in plain mode, the values of `$`PQ are the concatenation in order of the values of `$`Q on every value `$`P reaches (failing branches contribute nothing) and `$`PQ fails exactly when that is empty; the harness splits such texts at a step boundary (driver confirms both texts) and compares the three kinds of retrievals.',
         'note': NOTE_COMMON + ' That the parser links P++Q as append_deep P Q is tied by tree dumps only.',
         'technique': 'Coq proof on the specification (composition + root-independence by mutual induction) + three-retrieval relational oracle'},
     'C02': {
